@@ -234,6 +234,8 @@ def run(ctx):
             continue
         b = fn.body
         props = PROPS_KEY if fn.family == 'key' else PROPS_OTHER
+        if any(g.trait_method() == 'into_ordered_vec' for g in prog.reaching_trait_methods(fn)):
+            props = list(props) + ['C07']      # on the export path: what the export walks
         sites = []
         for call in b.calls:
             tgt = prog.resolve(call)
